@@ -68,6 +68,10 @@ type Pipe struct {
 	Writes []WriteEvent
 	// ReadLog records the size of every delivered read.
 	ReadLog []int
+	delivered []byte
+	emittedAll []byte
+	// SplitAtoms counts atoms (escape sequences) that a small read size forced the pipe to cut.
+	SplitAtoms int
 
 	// OnWrite is the device logic: called with the pipe locked for every Write.
 	OnWrite func(b []byte)
@@ -85,6 +89,7 @@ func (p *Pipe) Emit(b []byte) {
 	for _, c := range b {
 		p.atoms = append(p.atoms, []byte{c})
 	}
+	p.emittedAll = append(p.emittedAll, b...)
 	p.Emitted += len(b)
 	p.cond.Broadcast()
 }
@@ -95,6 +100,7 @@ func (p *Pipe) EmitAtom(b []byte) {
 		return
 	}
 	p.atoms = append(p.atoms, append([]byte{}, b...))
+	p.emittedAll = append(p.emittedAll, b...)
 	p.Emitted += len(b)
 	p.cond.Broadcast()
 }
@@ -225,6 +231,7 @@ func (p *Pipe) Read(n int) ([]byte, error) {
 			// read size smaller than an atom: the transport has to split it
 			out = append(out, a[:n]...)
 			p.atoms[0] = a[n:]
+			p.SplitAtoms++
 			break
 		}
 		if len(out)+len(a) > n {
@@ -237,6 +244,7 @@ func (p *Pipe) Read(n int) ([]byte, error) {
 	if len(out) > 0 {
 		p.Reads++
 		p.ReadLog = append(p.ReadLog, len(out))
+		p.delivered = append(p.delivered, out...)
 	}
 	pause := p.ReadPause
 	p.Mu.Unlock()
@@ -275,6 +283,13 @@ func (p *Pipe) AllWritten() []byte {
 	return out
 }
 
+// EmittedBytes is everything the device has produced so far (lock held).
+func (p *Pipe) EmittedBytes() []byte { return p.emittedAll }
+
+// DeliveredBytes is everything reads have handed out so far (call with the lock held, e.g.
+// inside Snapshot).
+func (p *Pipe) DeliveredBytes() []byte { return p.delivered }
+
 // Snapshot runs f with the pipe locked.
 func (p *Pipe) Snapshot(f func()) {
 	p.Mu.Lock()
@@ -309,7 +324,7 @@ type CLI struct {
 	Handle func(c *CLI, line string) string
 	// Prompt returns the prompt for the current mode.
 	Prompt func(c *CLI) string
-	// EchoWrap > 0 interleaves " \r" after every EchoWrap echoed bytes (terminal line wrap).
+	// EchoWrap > 0 interleaves " \r" between echoed bytes every EchoWrap bytes (terminal line wrap).
 	EchoWrap int
 	echoed   int
 	// NL is what the device sends for a newline (default "\n"; "\r\n" exercises CR removal).
@@ -328,34 +343,13 @@ func NewCLI() *CLI {
 // EmitRich emits text in which complete ANSI escape sequences (ESC [ ... final, ESC ] ... BEL)
 // become unsplittable atoms.
 func (c *CLI) EmitRich(s string) {
-	b := []byte(s)
-	for i := 0; i < len(b); {
-		if b[i] == 0x1b {
-			j := i + 1
-			if j < len(b) && b[j] == '[' {
-				j++
-				for j < len(b) && !(b[j] >= 0x40 && b[j] <= 0x7e) {
-					j++
-				}
-				if j < len(b) {
-					j++
-				}
-			} else if j < len(b) && b[j] == ']' {
-				for j < len(b) && b[j] != 0x07 {
-					j++
-				}
-				if j < len(b) {
-					j++
-				}
-			} else if j < len(b) {
-				j++
-			}
-			c.EmitAtom(b[i:j])
-			i = j
-			continue
+	atoms, esc := SplitEsc([]byte(s))
+	for i, a := range atoms {
+		if esc[i] {
+			c.EmitAtom(a)
+		} else {
+			c.Emit(a)
 		}
-		c.Emit(b[i : i+1])
-		i++
 	}
 }
 
@@ -380,11 +374,11 @@ func (c *CLI) onWrite(b []byte) {
 		}
 		c.line = append(c.line, ch)
 		if !c.Hidden {
+			if c.EchoWrap > 0 && c.echoed > 0 && c.echoed%c.EchoWrap == 0 {
+				c.Emit([]byte(" \r")) // terminal wraps before the next character, never after the last
+			}
 			c.Emit([]byte{ch})
 			c.echoed++
-			if c.EchoWrap > 0 && c.echoed%c.EchoWrap == 0 {
-				c.Emit([]byte(" \r"))
-			}
 		}
 	}
 }
